@@ -9,7 +9,9 @@ P("C33",
              "handle related events in the same order with the same outcome. c33_observers_invisible instantiates it: for every script and ANY "
              "observers that only consume generated IDs around events (arbitrary functions of state and event), the handled events are equal "
              "apart from IDs, at the same times, with equal final time and component counters. The model is tied exactly (traces incl. IDs) to the "
-             "real SerialEngine with and without an ID-eating hook. PARTIAL for library components: that their tracing call sites (NumHooks()>0 "
+             "real SerialEngine with and without an ID-eating hook. c33_heap_engine_invariant / c33_heap_engine_initial state the framework theorem on the "
+             "heap engine of Lib/Engine (the C01/C02 model with the real binary heap, via C06/EngineBridge run_rel): engines built from "
+             "NewSerialEngine by pointwise related Schedule calls stay related through Run. PARTIAL for library components: that their tracing call sites (NumHooks()>0 "
              "paths, tracing registries) do not feed back into behaviour is shown only by the differential over 7 observer configurations.",
   level_note="Trusted: Coq kernel + vm_compute; Go harness (assemblies, fingerprints). Assumes observers touch the simulation only through the "
              "ID generator; components treat IDs opaquely (the script handler never branches on an ID).",
